@@ -275,7 +275,10 @@ func (dc *TraditionalDnsConn) ReserveNewQuery() (_ ReservedExchanger, closed boo
 
 	dc.queueMu.Lock()
 	defer dc.queueMu.Unlock()
-	if len(dc.queue)+dc.reservedQuery >= dc.maxCq {
+	// A running exchange keeps its reservation until it returns, so reservedQuery
+	// already counts every query in dc.queue. Adding len(dc.queue) would count
+	// running queries twice and refuse at half the limit.
+	if dc.reservedQuery >= dc.maxCq {
 		return nil, false
 	}
 	dc.reservedQuery++
